@@ -90,6 +90,14 @@ func (c *checker) diskOp(e *sim.Ev) {
 		d.snaps = append(d.snaps, &snapRec{id: e.X, index: e.A, term: e.B, cfgIdx: e.C, cfg: e.Y, seq: d.nsnap})
 		s.truncSinceCreate = false
 		c.cov("op:snap.create")
+	case "d.snap.damage":
+		for _, sn := range d.snaps {
+			if sn.id == e.X {
+				sn.damaged = true
+			}
+		}
+		c.cov("snapshot-damaged")
+		return
 	case "d.snap.write":
 		c.cov("op:snap.write")
 	case "d.snap.close":
